@@ -2,6 +2,7 @@
   C19 — Reported inflation equals the actual annualised emission rate.
 -/
 import C4E.Minter
+import C4E.Lemmas.MinterArith
 namespace C4E.Props.C19
 open C4E C4E.Minter
 
@@ -52,6 +53,106 @@ theorem rate_exp_uses_step_amount (m : M) (a step mult supply start t : Int)
   unfold inflation
   rw [if_neg (by omega), hc]; simp only []
   rw [if_neg (by omega), he]; simp
+
+/-! ### the short-interval identity -/
+
+theorem div_of_between (x step : Int) (k : Nat) (hs : 0 < step) (h1 : (k : Int) * step ≤ x) (h2 : x < ((k : Int) + 1) * step) :
+    x / step = k := by
+  have a1 := Int.ediv_mul_le x (Int.ne_of_gt hs)
+  have a2 := Int.lt_ediv_add_one_mul_self x hs
+  have l1 : (k : Int) * step < (x / step + 1) * step := by omega
+  have l2 : x / step * step < ((k : Int) + 1) * step := by omega
+  have := Int.lt_of_mul_lt_mul_right l1 (Int.le_of_lt hs)
+  have := Int.lt_of_mul_lt_mul_right l2 (Int.le_of_lt hs)
+  omega
+
+/-- value of the exponential cumulative amount inside step `k` (no end clamp) -/
+theorem expAmount_in_step (a step mult start t : Int) (k : Nat) (ha : 0 ≤ a) (hm : 0 ≤ mult) (hs : 0 < step)
+    (h1 : start + (k : Int) * step ≤ t) (h2 : t < start + ((k : Int) + 1) * step) :
+    expAmount a step mult start none t = expSum a mult k + (expE a mult k * (t - (start + k * step))) / step := by
+  have hk0 : (0 : Int) ≤ (k : Int) * step := Int.mul_nonneg (Int.natCast_nonneg k) (Int.le_of_lt hs)
+  have hp : 0 ≤ t - start := by omega
+  have hdiv : (t - start) / step = k := div_of_between (t - start) step k hs (by omega) (by omega)
+  unfold expAmount expNow
+  simp only []
+  rw [Int.tdiv_eq_ediv_of_nonneg hp, hdiv]
+  simp only [Int.toNat_natCast]
+  unfold Dec.quoInt Dec.mulInt
+  have hnn : 0 ≤ expE a mult k * (t - (start + (k : Int) * step)) :=
+    Int.mul_nonneg (expE_nonneg a mult ha hm k) (by omega)
+  rw [Int.tdiv_eq_ediv_of_nonneg hnn]
+
+/-- **short-interval identity (exponential period)**: inside one step, what the schedule emits
+    between two instants is the step amount times the interval over the step length, up to one
+    10^-18 unit — and the reported inflation is that same step amount annualised over the supply
+    (`rate_exp_uses_step_amount`) -/
+theorem exp_interval (a step mult start t1 t2 : Int) (k : Nat) (ha : 0 ≤ a) (hm : 0 ≤ mult) (hs : 0 < step)
+    (h1 : start + (k : Int) * step ≤ t1) (h12 : t1 ≤ t2) (h2 : t2 < start + ((k : Int) + 1) * step) :
+    let d := expAmount a step mult start none t2 - expAmount a step mult start none t1
+    let E := expE a mult k
+    (d - 1) * step < E * (t2 - t1) ∧ E * (t2 - t1) < (d + 1) * step := by
+  rw [expAmount_in_step a step mult start t1 k ha hm hs h1 (by omega),
+      expAmount_in_step a step mult start t2 k ha hm hs (by omega) h2]
+  simp only []
+  have hE := expE_nonneg a mult ha hm k
+  generalize expE a mult k = E at *
+  generalize hc : start + (k : Int) * step = c at *
+  have x1 := Int.ediv_mul_le (E * (t1 - c)) (Int.ne_of_gt hs)
+  have x2 := Int.lt_ediv_add_one_mul_self (E * (t1 - c)) hs
+  have y1 := Int.ediv_mul_le (E * (t2 - c)) (Int.ne_of_gt hs)
+  have y2 := Int.lt_ediv_add_one_mul_self (E * (t2 - c)) hs
+  have e : E * (t2 - t1) = E * (t2 - c) - E * (t1 - c) := by
+    rw [← Int.mul_sub]; congr 1; omega
+  generalize E * (t1 - c) / step = q1 at *
+  generalize E * (t2 - c) / step = q2 at *
+  generalize E * (t1 - c) = A at *
+  generalize E * (t2 - c) = B at *
+  have f1 : (q1 + 1) * step = q1 * step + step := by rw [Int.add_mul]; omega
+  have f2 : (q2 + 1) * step = q2 * step + step := by rw [Int.add_mul]; omega
+  have g1 : (expSum a mult k + q2 - (expSum a mult k + q1) - 1) * step = q2 * step - q1 * step - step := by
+    have : expSum a mult k + q2 - (expSum a mult k + q1) - 1 = q2 - q1 - 1 := by omega
+    rw [this, Int.sub_mul, Int.sub_mul]; omega
+  have g2 : (expSum a mult k + q2 - (expSum a mult k + q1) + 1) * step = q2 * step - q1 * step + step := by
+    have : expSum a mult k + q2 - (expSum a mult k + q1) + 1 = q2 - q1 + 1 := by omega
+    rw [this, Int.add_mul, Int.sub_mul]; omega
+  rw [g1, g2, e]
+  constructor <;> omega
+
+/-- **short-interval identity (linear period)** on millisecond-aligned instants inside the period:
+    the emission between them is amount × interval / period length up to one 10^-18 unit -/
+theorem lin_interval (a start e t1 t2 : Int) (ha : 0 ≤ a) (hs1 : start ≤ t1) (h12 : t1 ≤ t2) (h2e : t2 ≤ e)
+    (hper : 0 < ms e - ms start) :
+    let d := linAmount a start e t2 - linAmount a start e t1
+    let L := ms e - ms start
+    (d - 1) * L < Dec.ofInt a * (ms t2 - ms t1) ∧ Dec.ofInt a * (ms t2 - ms t1) < (d + 1) * L := by
+  have hA : 0 ≤ Dec.ofInt a := by unfold Dec.ofInt; exact Int.mul_nonneg ha (Int.le_of_lt P_pos)
+  have m1 : ms start ≤ ms t1 := ms_mono hs1
+  have m2 : ms t1 ≤ ms t2 := ms_mono h12
+  unfold linAmount
+  rw [if_neg (by omega), if_neg (by omega), if_neg (by omega), if_neg (by omega)]
+  unfold Dec.quoInt Dec.mulInt
+  have n1 : 0 ≤ Dec.ofInt a * (ms t1 - ms start) := Int.mul_nonneg hA (by omega)
+  have n2 : 0 ≤ Dec.ofInt a * (ms t2 - ms start) := Int.mul_nonneg hA (by omega)
+  rw [Int.tdiv_eq_ediv_of_nonneg n1, Int.tdiv_eq_ediv_of_nonneg n2]
+  simp only []
+  generalize Dec.ofInt a = A at *
+  generalize ms e - ms start = L at *
+  have x1 := Int.ediv_mul_le (A * (ms t1 - ms start)) (Int.ne_of_gt hper)
+  have x2 := Int.lt_ediv_add_one_mul_self (A * (ms t1 - ms start)) hper
+  have y1 := Int.ediv_mul_le (A * (ms t2 - ms start)) (Int.ne_of_gt hper)
+  have y2 := Int.lt_ediv_add_one_mul_self (A * (ms t2 - ms start)) hper
+  have e : A * (ms t2 - ms t1) = A * (ms t2 - ms start) - A * (ms t1 - ms start) := by
+    rw [← Int.mul_sub]; congr 1; omega
+  generalize A * (ms t1 - ms start) / L = q1 at *
+  generalize A * (ms t2 - ms start) / L = q2 at *
+  generalize A * (ms t1 - ms start) = X at *
+  generalize A * (ms t2 - ms start) = Y at *
+  have f1 : (q1 + 1) * L = q1 * L + L := by rw [Int.add_mul]; omega
+  have f2 : (q2 + 1) * L = q2 * L + L := by rw [Int.add_mul]; omega
+  have g1 : (q2 - q1 - 1) * L = q2 * L - q1 * L - L := by rw [Int.sub_mul, Int.sub_mul]; omega
+  have g2 : (q2 - q1 + 1) * L = q2 * L - q1 * L + L := by rw [Int.add_mul, Int.sub_mul]; omega
+  rw [g1, g2, e]
+  constructor <;> omega
 
 theorem nonvacuous : inflation { seq := 1, endT := some 31536000000000000, cfg := .lin 1000 } 10000 0 5 = .ok 100000000000000000 := by
   decide
